@@ -26,6 +26,17 @@ from plinio.methods.mps.quant.backends.utils import binary_search
 from .module import MAUPITIModule
 
 
+class _ModePad(nn.Module):
+    """reflect / replicate / circular padding, as `nn.Conv2d` applies it"""
+    def __init__(self, pads, mode):
+        super(_ModePad, self).__init__()
+        self.pads = pads
+        self.mode = mode
+
+    def forward(self, t: torch.Tensor) -> torch.Tensor:
+        return F.pad(t, self.pads, mode=self.mode)
+
+
 class MAUPITIConv2d(nn.Conv2d, MAUPITIModule):
     """A nn.Module implementing an integer quantized Conv2d layer compatible
     with the MAUPITI backend.
@@ -131,10 +142,14 @@ class MAUPITIConv2d(nn.Conv2d, MAUPITIModule):
             raise NotImplementedError("Same padding is not supported yet")
         if self.padding == 'valid':
             self.pad = nn.ConstantPad2d(0, 0)
-        else:
+        elif self.padding_mode == 'zeros':
             # (left, right, top, bottom): the width is padded by padding[1], the height by padding[0]
             self.pad = nn.ConstantPad2d(
                 (self.padding[1], self.padding[1], self.padding[0], self.padding[0]), self.in_offset)
+        else:
+            # reflect / replicate / circular padding copies activations: it commutes with the
+            # input offset, so it is applied as the fake-quantized layer applies it
+            self.pad = _ModePad(self._reversed_padding_repeated_twice, self.padding_mode)
 
     def forward(self, input: torch.Tensor) -> torch.Tensor:
         """The forward function of integer conv2d layer.
